@@ -181,6 +181,7 @@ func edits() []Op {
 		tog("fail:leaf", func(v *Vars) { v.Fail[2] = !v.Fail[2] }),
 		tog("dep:missing", func(v *Vars) { v.Missing = !v.Missing }),
 		tog("dep:cycle", func(v *Vars) { v.Cycle = !v.Cycle }),
+		tog("dep:diamond", func(v *Vars) { v.Diamond = !v.Diamond }),
 		tog("chatty", func(v *Vars) { v.Chatty = !v.Chatty }),
 		tog("always:gen", func(v *Vars) { v.AlwaysGen = !v.AlwaysGen }),
 		tog("sabotage:leaf", func(v *Vars) { v.Sabotage = !v.Sabotage }),
@@ -211,6 +212,10 @@ func builds() []Op {
 		b("build:gen", buildOpts{Target: tGen}),
 		b("build:leaf", buildOpts{Target: tLeaf}),
 		b("build:top:always", buildOpts{Target: tTop, Always: true}),
+		b("build:other", buildOpts{Target: tOther}),
+		b("build:gen+top(one load)", buildOpts{Target: tGen, Then: tTop}),
+		b("build:mid+top(one load)", buildOpts{Target: tMid, Then: tTop}),
+		b("build:leaf+top(one load)", buildOpts{Target: tLeaf, Then: tTop}),
 		b("dry:top", buildOpts{Target: tTop, Dry: true}),
 		b("dry:mid", buildOpts{Target: tMid, Dry: true}),
 		b("gc:full", buildOpts{GC: true}),
@@ -235,6 +240,9 @@ func focused(prop string, thorough bool) []focus {
 			{[]string{"link:dir/link", "edit:misc/n.txt", "edit:dir/x.txt", "build:mid", "build:top"}, 7 + d},
 			{[]string{"edit:pkg/b.txt", "default:leaf.d", "flag:mode", "build:leaf", "build:top"}, 7 + d},
 			{[]string{"global:LATE", "delete:gen/g.txt", "fail:gen", "build:gen", "build:top"}, 7 + d},
+			{[]string{"fail:mid", "edit:dir/x.txt", "build:mid", "build:top"}, 8 + d},
+			{[]string{"edit:pkg/b.txt", "edit:src/a.txt", "build:gen+top(one load)", "build:leaf+top(one load)", "build:mid+top(one load)", "build:top"}, 5 + d},
+			{[]string{"dep:diamond", "edit:src/a.txt", "code:helper", "build:leaf", "build:mid", "build:top"}, 6 + d},
 		}
 	case "C02":
 		return []focus{
@@ -303,18 +311,18 @@ func alphabet(prop string, thorough bool) []Op {
 			return pick(ops...)
 		}
 		return pick("edit:src/a.txt", "edit:pkg/b.txt", "rename:dir/y.txt<->z.txt", "addremove:dir/w.txt", "const:K", "default:leaf.d", "code:helper", "closure:V",
-			"edge:top->leaf", "fail:mid", "delete:gen/g.txt", "build:top", "build:mid", "build:gen", "build:leaf")
+			"edge:top->leaf", "fail:mid", "delete:gen/g.txt", "build:top", "build:mid", "build:gen", "build:leaf", "build:mid+top(one load)")
 	case "C02":
 		if thorough {
 			return pick(all...)
 		}
 		return pick("edit:src/a.txt", "edit:dir/x.txt", "const:K", "global:G", "flag:mode", "comment:BUILD.dawn", "comment+docstring:lib.dawn", "comment:pkg/BUILD.dawn",
-			"edit:misc/n.txt", "target:pkg:other", "delete:out/mid", "fail:leaf", "build:top", "build:mid", "build:leaf")
+			"edit:misc/n.txt", "target:pkg:other", "delete:out/mid", "fail:leaf", "build:top", "build:mid", "build:leaf", "gc:full")
 	case "C13":
 		if thorough {
 			return pick(all...)
 		}
-		return pick("edit:src/a.txt", "edit:pkg/b.txt", "const:K", "edge:top->leaf", "fail:gen", "fail:leaf", "delete:gen/g.txt", "always:gen",
+		return pick("edit:src/a.txt", "edit:pkg/b.txt", "const:K", "edge:top->leaf", "fail:gen", "delete:gen/g.txt", "always:gen", "dep:missing",
 			"build:top", "build:mid", "dry:top", "dry:mid")
 	case "C14":
 		if thorough {
@@ -456,6 +464,12 @@ func (x *searcher) step(s *State, op Op) []*State {
 // checkBuild: currency + differential (C01) and minimality (C02) of a real build.
 func (x *searcher) checkBuild(s, n *State, o buildOpts, res *buildResult) {
 	v := s.V
+	if o.Then != "" {
+		// two runs on one Project: judge the union through the later, larger target
+		if len(v.closure(o.Then)) >= len(v.closure(o.Target)) {
+			o.Target = o.Then
+		}
+	}
 	before := s.files()
 	evaluating := evaluatingSet(res.Events)
 	// Evaluating <=> the body ran (non-dry)
@@ -544,7 +558,7 @@ func (x *searcher) explore(depth int, ops []Op) {
 		}
 		succ := make([][]*State, len(frontier))
 		stopped := atomic.Bool{}
-		x.r.Parallel(len(frontier), func(i int) {
+		expand := func(i int) {
 			if x.r.Expired() {
 				stopped.Store(true)
 				return
@@ -552,7 +566,15 @@ func (x *searcher) explore(depth int, ops []Op) {
 			for _, op := range ops {
 				succ[i] = append(succ[i], x.step(frontier[i], op)...)
 			}
-		})
+		}
+		if controlled {
+			// builds run under the (process-global) controlled scheduler: one at a time
+			for i := range frontier {
+				expand(i)
+			}
+		} else {
+			x.r.Parallel(len(frontier), expand)
+		}
 		if stopped.Load() {
 			x.r.Cap(fmt.Sprintf("wall-clock budget: depth %d only partly explored (complete to depth %d)", d, d-1))
 		}
